@@ -827,9 +827,18 @@ class PipeFunc(Generic[T]):
 
         """
         state = {
-            k: v for k, v in self.__dict__.items() if k not in ("func", "_pipelines", "resources")
+            k: v
+            for k, v in self.__dict__.items()
+            if k not in ("func", "_pipelines", "resources", "error_snapshot")
         }
         state["func"] = cloudpickle.dumps(self.func)
+        # The snapshot refers to the wrapped function (and its arguments), which
+        # like `func` might only be picklable by `cloudpickle` (closures, lambdas).
+        try:
+            state["error_snapshot"] = cloudpickle.dumps(self.__dict__.get("error_snapshot"))
+        except Exception:  # noqa: BLE001
+            # e.g., the failing call had an argument that cannot be pickled at all
+            state["error_snapshot"] = cloudpickle.dumps(None)
         state["resources"] = (
             cloudpickle.dumps(self.resources) if self.resources is not None else None
         )
@@ -851,6 +860,7 @@ class PipeFunc(Generic[T]):
         self._pipelines = weakref.WeakSet()
         self.func = cloudpickle.loads(self.func)
         self.resources = cloudpickle.loads(self.resources) if self.resources is not None else None
+        self.error_snapshot = cloudpickle.loads(self.error_snapshot)
 
     def _validate_mapspec(self) -> None:
         if self.mapspec is None:
